@@ -10,7 +10,7 @@ LEVEL = "model_checking"
 ANCHOR_PREFIXES = ["connector::", "element::SvgElement::transmute", "element::SvgElement::is_connector", "position::Length::calc_offset", "position::parse_el_loc", "position::BoundingBox::locspec"]
 BOUNDS = ("two boxes (rect/circle) with symbolic position (integers in [-64,64]) and size (integers in [0,32]); endpoint specs {#el, #el@loc (9), #el@edge:offset (symbolic either sign / 25% / 50% / 150%, all four edges), "
           "literal point (symbolic)} on either end; kinds {line straight, edge-type h, edge-type v, corner polyline with corner-offset absent / 25% / 125% / absolute symbolic of either sign}; "
-          "paths: those reached from 12 seeded arrangements (9 sectors, overlapping, touching, identical) plus solver-driven negation for templates without a closest-location search; "
+          "paths: those reached from 12 seeded arrangements (9 sectors, overlapping, touching, identical) and up to 3 searched near-tie arrangements (the two nearest candidate pairs within one unit of squared distance) plus solver-driven negation for templates without a closest-location search; "
           "every reached path is decided for all values (nonlinear real arithmetic over the hull of the domain); connectors written before / between their ends and with a relatively placed second box; stray connector attributes on non-corner connectors; edge-type on a <polyline>")
 ASSUMPTIONS = ["candidate locations: edge mid-points t r b l, plus the four corners for straight lines; l r only for edge-type h, t b only for edge-type v (property text + docs connectors.md)",
                "ties between equally distant candidates may resolve either way", "corner-offset: percent of the span from start to end (default 50%), absolute from the start towards the end; same-direction (U) connectors take an absolute offset (default 3) beyond the outermost end point (docs)"]
@@ -150,6 +150,43 @@ def d2(p, q):
 
 def pt_eq(p, q):
     return and_(eq(p[0], q[0]), eq(p[1], q[1]))
+
+
+def tie_seeds(vars_, sk, si, ek, ei, cands, n=3):
+    """valuations in which the two nearest candidate pairs are closer to each other than one unit of squared distance (and
+    lie within the same integer): the comparison that picks the end points has to be exact there.  Deterministic search."""
+    import math
+    if not (sk == "plain" or ek == "plain") or any(k == "edge" for k in (sk, ek)):
+        return []
+
+    def loc(b, l):
+        x, y, w, h = b
+        return {"t": (x + w / 2, y), "b": (x + w / 2, y + h), "l": (x, y + h / 2), "r": (x + w, y + h / 2), "tl": (x, y), "tr": (x + w, y), "bl": (x, y + h), "br": (x + w, y + h), "c": (x + w / 2, y + h / 2)}[l]
+    rng = random.Random(f"{sk}{si}{ek}{ei}{len(cands)}")
+    out = []
+    for _ in range(20000):
+        v = [x[0] for x in vars_]
+        v[0], v[1], v[2], v[3] = rng.randint(-8, 8), rng.randint(-8, 8), rng.randint(1, 9), rng.randint(1, 9)
+        v[4], v[5], v[6], v[7] = rng.randint(-8, 8), rng.randint(-8, 8), rng.randint(1, 9), rng.randint(1, 9)
+        for k in range(8, len(v)):
+            v[k] = rng.randint(-8, 8)
+        A, B = v[0:4], v[4:8]
+        pts = []
+        nxt = 8
+        for kind, info, box in ((sk, si, A), (ek, ei, B)):
+            if kind == "plain":
+                pts.append([loc(box, l) for l in cands])
+            elif kind == "loc":
+                pts.append([loc(box, info)])
+            else:
+                pts.append([(v[nxt], v[nxt + 1])])
+                nxt += 2
+        d = sorted((p[0] - q[0]) ** 2 + (p[1] - q[1]) ** 2 for p in pts[0] for q in pts[1])
+        if len(d) > 1 and d[0] < d[1] and math.floor(d[0]) == math.floor(d[1]):
+            out.append(v)
+            if len(out) >= n:
+                break
+    return out
 
 
 def build(td, wrong=False):
@@ -303,4 +340,4 @@ def build(td, wrong=False):
                 obls.append(Obl("u-jog-beyond-outermost-end", or_(ne(pts[1][ax], jog), ne(pts[2][ax], jog))))
         return obls
     name = f"{fam}/{td.get('s')}/{td.get('e')}/{td.get('et', '')}{td.get('off', '')}/{td.get('ka', '')}" + (f"/{td['order']}" if td.get("order") else "") + (f"/{td['stray']}" if td.get("stray") else "") + ("/polyline" if td.get("tag") == "polyline" else "")
-    return Template(name, doc, vars_, check, family=fam, role=f"C13/{fam}", cap=40, seeds=seeds(vars_), explore=not needs_search)
+    return Template(name, doc, vars_, check, family=fam, role=f"C13/{fam}", cap=40, seeds=seeds(vars_) + (tie_seeds(vars_, sk, si, ek, ei, cands) if td.get("order", "abk") == "abk" and not td.get("stray") else []), explore=not needs_search)
